@@ -1,18 +1,38 @@
 """Facts for C01 (request/response matching in JSONRPCConnection).
 
-Behavioural normal forms read from the *current* tree: the id counter (start, step), which id
-types each protocol's `_message_id` admits, whether a bool id can select a request, which
-exception an unhashable / unsortable id ends in, `allow_batches`, the sort key of
-`_receive_response_batch` (AST) and fingerprints of every modelled function."""
-import ast
+Every fact is BEHAVIOURAL: obtained by running the public API of the *current* tree
+(`JSONRPCConnection.send_request / send_batch / receive_message`, the protocol classes'
+`message_to_item`, a real `RPCSession` on a fake transport) and recording what came out - ids
+are decoded from the message bytes the connection returned, never read from an attribute.
+Nothing depends on an AST shape, on the layout of `_requests`, on `_id_counter` or on any other
+private name.  `ast` is used for the fingerprints only (they merely decide how deep the quick
+tier explores; a missing function is recorded as 'missing', it is not an error).
+
+  id counter         ids seen in the messages of 3 singles, a 2-request batch, 1 single
+  process table      protocol x id type x {result, error, malformed, no id}: what
+                     `message_to_item` answers (Response / ProtocolError and its recoverable id)
+  batches allowed    `send_batch` on a fresh connection of each protocol: message or ProtocolError
+  bool / unhashable / unsortable ids   the exception `receive_message` ends in, and whether
+                     anything outstanding moved
+  sort probes        a batch of 3 (4) requests - also with ids straddling 9/10 and 99/100 after
+                     warm-up singles - answered in every (some) member order with results that
+                     cannot be compared with `<`: the order in which the future delivers them;
+                     duplicated / missing / foreign member ids: exception and whether the batch
+                     future moved
+  notification-only batch   `async with session.send_batch()` with notifications only, on a real
+                     RPCSession over a fake transport: returns quietly with results == ()"""
 import asyncio
+import itertools
 import json
 
 from . import common
 
 ID_SAMPLES = [('int', 1), ('float', 1.5), ('str', 'a'), ('null', None), ('bool', True),
               ('list', [1]), ('dict', {'a': 1})]
+ID_LEAN = ['.int 1', '.half 3', '.str [97]', '.null', '.bool true', '.unhashable 0',
+           '.unhashable 1']
 PROTOS = ['JSONRPCv1', 'JSONRPCv2', 'JSONRPCLoose']
+SHAPES = ['val', 'err', 'mal', 'noid']
 
 FUNCS = {
     'aiorpcx/jsonrpc.py': [
@@ -39,101 +59,290 @@ def _exc_name(fn):
         return type(e).__name__
 
 
-def _sort_key_facts(tree):
-    node = common.find(tree, 'JSONRPCConnection._receive_response_batch')
-    out = {'sorted_calls': 0, 'key_index': -1, 'reverse': False}
-    if node is None:
-        return out
-    for n in ast.walk(node):
-        if isinstance(n, ast.Call) and isinstance(n.func, ast.Name) and n.func.id == 'sorted':
-            out['sorted_calls'] += 1
-            for kw in n.keywords:
-                if kw.arg == 'reverse' and not (isinstance(kw.value, ast.Constant)
-                                                and kw.value.value is False):
-                    out['reverse'] = True
-                if kw.arg == 'key' and isinstance(kw.value, ast.Lambda):
-                    body = kw.value.body
-                    if isinstance(body, ast.Subscript) and isinstance(body.slice, ast.Constant) \
-                            and isinstance(body.slice.value, int):
-                        out['key_index'] = body.slice.value
+def _is_int(i):
+    return isinstance(i, int) and not isinstance(i, bool)
+
+
+def wire_ids(message):
+    """the ids in a message returned by send_request / send_batch, in message order"""
+    p = json.loads(message)
+    return [m['id'] for m in (p if isinstance(p, list) else [p]) if isinstance(m, dict) and 'id' in m]
+
+
+def response(pname, idv, shape, n=1):
+    """a response payload of the protocol: a result, an error, a malformed one, one without id"""
+    err = {'code': n, 'message': f'm{n}'}
+    if pname == 'JSONRPCv1':
+        p = {'val': {'result': n, 'error': None}, 'err': {'result': None, 'error': err},
+             'mal': {'result': n, 'error': err}, 'noid': {'result': n, 'error': None}}[shape]
+    elif pname == 'JSONRPCv2':
+        p = {'val': {'jsonrpc': '2.0', 'result': n}, 'err': {'jsonrpc': '2.0', 'error': err},
+             'mal': {'jsonrpc': '2.0', 'result': n, 'error': err},
+             'noid': {'jsonrpc': '2.0', 'result': n}}[shape]
+    else:
+        p = {'val': {'result': n}, 'err': {'error': err}, 'mal': {'result': n, 'error': err},
+             'noid': {'result': n}}[shape]
+    p = dict(p)
+    if shape != 'noid':
+        p['id'] = idv
+    return p
+
+
+# ------------------------------------------------------------------ the probes
+def probe_id_counter(jr):
+    ids = []
+    try:
+        conn = jr.JSONRPCConnection(jr.JSONRPCv2)
+        for _ in range(3):
+            msg, _f = conn.send_request(jr.Request('m', []))
+            ids += wire_ids(msg)
+        msg, _f = conn.send_batch(jr.Batch([jr.Request('a', []), jr.Notification('n', []),
+                                            jr.Request('b', [])]))
+        ids += wire_ids(msg)
+        msg, _f = conn.send_request(jr.Request('m', []))
+        ids += wire_ids(msg)
+    except Exception:   # noqa: no usable id sequence on this tree
+        ids = []
+    good = len(ids) == 6 and all(_is_int(i) for i in ids)
+    diffs = {b - a for a, b in zip(ids, ids[1:])} if good else {0}
+    return {'id_start': ids[0] if good and ids[0] >= 0 else 0,
+            'id_step': diffs.pop() if len(diffs) == 1 and min(diffs) > 0 else 0,
+            'ids_seen': ids}
+
+
+class _Unencodable:
+    pass
+
+
+def probe_fail_draws(jr, step):
+    """does a send that raises use up the ids it drew?  (ids before / after, from the wire)"""
+    step = step or 1
+
+    def gap(proto, failing):
+        c = jr.JSONRPCConnection(proto)
+        a = wire_ids(c.send_request(jr.Request('m', []))[0])[0]
+        name = _exc_name(lambda: failing(c))
+        b = wire_ids(c.send_request(jr.Request('m', []))[0])[0]
+        return name, (b - a) // step - 1
+    out = {}
+    try:
+        name, g = gap(jr.JSONRPCv2, lambda c: c.send_request(jr.Request('m', [_Unencodable()])))
+        out['single'] = (name, g)
+    except Exception as e:   # noqa
+        out['single'] = ('!' + type(e).__name__, 1)
+    two = lambda bad: jr.Batch([jr.Request('a', [_Unencodable()] if bad else []),   # noqa: E731
+                                jr.Request('b', [])])
+    try:
+        out['batch_v1'] = gap(jr.JSONRPCv1, lambda c: c.send_batch(two(False)))
+    except Exception as e:   # noqa
+        out['batch_v1'] = ('!' + type(e).__name__, 2)
+    try:
+        out['batch_unencodable'] = gap(jr.JSONRPCv2, lambda c: c.send_batch(two(True)))
+    except Exception as e:   # noqa
+        out['batch_unencodable'] = ('!' + type(e).__name__, 2)
     return out
+
+
+def probe_process_table(jr):
+    """[proto][id sample][shape] -> (ok?, recovered id sample index or -1)"""
+    table = {}
+    for pname in PROTOS:
+        proto = getattr(jr, pname)
+        rows = []
+        for _tname, val in ID_SAMPLES:
+            row = []
+            for shape in SHAPES:
+                raw = json.dumps(response(pname, val, shape)).encode()
+                try:
+                    _item, rid = proto.message_to_item(raw)
+                    ok = True
+                except jr.ProtocolError as e:
+                    ok = False
+                    rid = getattr(e, 'response_msg_id', None)
+                    if rid is id:       # the class's "no response id" marker
+                        rid = None
+                except Exception as e:   # noqa
+                    ok, rid = False, ('!', type(e).__name__)
+                rec = -1
+                for k, (_t, v) in enumerate(ID_SAMPLES):
+                    if type(v) is type(rid) and v == rid:
+                        rec = k
+                row.append((ok, rec))
+            rows.append(row)
+        table[pname] = rows
+    return table
+
+
+def probe_allow_batches(jr):
+    out = {}
+    for pname in PROTOS + ['JSONRPCAutoDetect']:
+        def go(pname=pname):
+            conn = jr.JSONRPCConnection(getattr(jr, pname))
+            conn.send_batch(jr.Batch([jr.Request('a', []), jr.Request('b', [])]))
+        out[pname] = _exc_name(go) == 'none'
+    return out
+
+
+def probe_odd_ids(jr):
+    """bool / unhashable response ids on 1.0 (which does not constrain the id type)"""
+    def v1_probe(make_id):
+        c = jr.JSONRPCConnection(jr.JSONRPCv1)
+        sent = []
+        for _ in range(2):
+            msg, fut = c.send_request(jr.Request('m', []))
+            sent.append((wire_ids(msg)[0], fut))
+        idval = make_id([i for i, _f in sent])
+        raw = json.dumps({'result': 5, 'error': None, 'id': idval}).encode()
+        name = _exc_name(lambda: c.receive_message(raw))
+        return name, any(f.done() for _i, f in sent), len(c.pending_requests())
+
+    def bool_for(ids):
+        # True == 1, False == 0: aim at an outstanding id if one is 0 or 1
+        return True if 1 in ids else False
+    try:
+        name, moved, pending = v1_probe(bool_for)
+    except Exception as e:   # noqa
+        name, moved, pending = type(e).__name__, True, -1
+    rejects_bool = (name == 'ProtocolError' and not moved and pending == 2)
+    try:
+        name, _moved, _p = v1_probe(lambda ids: [ids[-1]])
+    except Exception as e:   # noqa
+        name = type(e).__name__
+    unhashable = name
+    c = jr.JSONRPCConnection(jr.JSONRPCv2)
+    ids = [0, 1]
+    try:
+        msg, _f = c.send_batch(jr.Batch([jr.Request('a', []), jr.Request('b', [])]))
+        ids = wire_ids(msg)
+    except Exception:   # noqa
+        pass
+    raw = json.dumps([{'jsonrpc': '2.0', 'id': ids[0], 'result': 1},
+                      {'jsonrpc': '2.0', 'id': 'x', 'result': 2}]).encode()
+    unsortable = _exc_name(lambda: c.receive_message(raw))
+    return {'conn_rejects_bool': rejects_bool, 'unhashable_exc': unhashable,
+            'unsortable_exc': unsortable}
+
+
+def _batch_after_warmup(jr, warm, size):
+    """a 2.0 connection on which `warm` singles were sent and answered, then a batch of `size`
+    requests: (connection, ids of the batch in member order, its future)"""
+    c = jr.JSONRPCConnection(jr.JSONRPCv2)
+    for _ in range(warm):
+        msg, _f = c.send_request(jr.Request('w', []))
+        c.receive_message(json.dumps({'jsonrpc': '2.0', 'id': wire_ids(msg)[0],
+                                      'result': 0}).encode())
+    msg, fut = c.send_batch(jr.Batch([jr.Request('m', [j]) for j in range(size)]))
+    return c, wire_ids(msg), fut
+
+
+def _member_result(j):
+    # dicts are not comparable with `<`: a sort that ever looks at the results raises
+    return {'member': j}
+
+
+def probe_sort(jr):
+    """[(warm, size, ids, answer order (member indices), delivered order | exception name)]"""
+    plans = []
+    for warm, size in ((0, 3), (8, 3), (98, 3)):
+        plans += [(warm, size, list(p)) for p in itertools.permutations(range(size))]
+    plans += [(7, 4, [3, 0, 2, 1]), (7, 4, [1, 3, 0, 2]), (97, 4, [2, 3, 1, 0]), (0, 1, [0]),
+              (9, 2, [1, 0]), (99, 2, [1, 0])]
+    out = []
+    for warm, size, order in plans:
+        try:
+            c, ids, fut = _batch_after_warmup(jr, warm, size)
+            if not all(_is_int(i) and i >= 0 for i in ids) or len(ids) != size:
+                out.append({'warm': warm, 'size': size, 'ids': [], 'order': order, 'got': 'ids?'})
+                continue
+            raw = json.dumps([{'jsonrpc': '2.0', 'id': ids[j], 'result': _member_result(j)}
+                              for j in order]).encode()
+            name = _exc_name(lambda: c.receive_message(raw))
+            if name != 'none' or not fut.done() or fut.cancelled() or fut.exception():
+                got = name if name != 'none' else 'not-completed'
+            else:
+                res = fut.result()
+                got = [r.get('member') if isinstance(r, dict) else -1 for r in res]
+                if len(c.pending_requests()):
+                    got = 'still-pending'
+        except Exception as e:   # noqa
+            ids, got = [], '!' + type(e).__name__
+        out.append({'warm': warm, 'size': size, 'ids': ids, 'order': order, 'got': got})
+    return out
+
+
+def probe_mismatch(jr):
+    """answers that are not a permutation of the batch's ids: (kind, exception, batch moved?)"""
+    out = []
+    for kind in ('duplicate', 'missing', 'foreign', 'single'):
+        try:
+            c, ids, fut = _batch_after_warmup(jr, 0, 3)
+            unused = max(ids) + 7
+            sel = {'duplicate': [ids[2], ids[0], ids[0], ids[1]], 'missing': [ids[2], ids[0]],
+                   'foreign': [ids[2], unused, ids[0]], 'single': [ids[1]]}[kind]
+            members = [{'jsonrpc': '2.0', 'id': i, 'result': _member_result(j)}
+                       for j, i in enumerate(sel)]
+            raw = json.dumps(members[0] if kind == 'single' else members).encode()
+            name = _exc_name(lambda: c.receive_message(raw))
+            moved = fut.done() or len(c.pending_requests()) != 1
+        except Exception as e:   # noqa
+            name, moved = '!' + type(e).__name__, True
+        out.append({'kind': kind, 'exc': name, 'moved': moved})
+    return out
+
+
+def probe_notification_only_batch(repo, jr):
+    """`async with session.send_batch() as b: b.add_notification(..)` on a real RPCSession"""
+    try:
+        from harness import c01_fake
+        rawsocket = common.fresh_import(repo, 'aiorpcx.rawsocket')
+        session_mod = common.fresh_import(repo, 'aiorpcx.session')
+
+        async def go():
+            _p, tr, session = c01_fake.make_session(rawsocket, session_mod.RPCSession,
+                                                    session_mod.SessionKind.CLIENT)
+            async with session.send_batch() as b:
+                b.add_notification('n', [1])
+                b.add_notification('n', [2])
+            written = tr.take_messages()
+            ok = b.results == () and len(written) == 1 and isinstance(written[0], list) \
+                and len(written[0]) == 2
+            await session.close()
+            return ok
+        loop = asyncio.get_event_loop()
+        return bool(loop.run_until_complete(asyncio.wait_for(go(), 5)))
+    except Exception:   # noqa: F19 unrepaired (TypeError) or anything else that is not quiet
+        return False
 
 
 def extract(repo):
     jr = common.fresh_import(repo, 'aiorpcx.jsonrpc')
-    tree = common.parse(repo, 'aiorpcx/jsonrpc.py')
     facts = {}
     loop = asyncio.new_event_loop()
     asyncio.set_event_loop(loop)
     try:
-        # ---- id counter: ids seen in the messages of 3 singles, a batch, 1 single
-        ids = []
-        try:
-            conn = jr.JSONRPCConnection(jr.JSONRPCv2)
-            for _ in range(3):
-                msg, _f = conn.send_request(jr.Request('m', []))
-                ids.append(json.loads(msg)['id'])
-            msg, _f = conn.send_batch(jr.Batch([jr.Request('a', []), jr.Notification('n', []),
-                                                jr.Request('b', [])]))
-            ids += [p['id'] for p in json.loads(msg) if 'id' in p]
-            msg, _f = conn.send_request(jr.Request('m', []))
-            ids.append(json.loads(msg)['id'])
-        except Exception:   # noqa: no usable id sequence on this tree
-            ids = []
-        good = len(ids) == 6 and all(isinstance(i, int) and not isinstance(i, bool) for i in ids)
-        diffs = {b - a for a, b in zip(ids, ids[1:])} if good else {0}
-        facts['id_start'] = ids[0] if good and ids[0] >= 0 else 0
-        facts['id_step'] = diffs.pop() if len(diffs) == 1 and min(diffs) > 0 else 0
-        facts['ids_seen'] = ids
-        # ---- which id values _message_id admits (in a response)
-        table = {}
-        for pname in PROTOS:
-            proto = getattr(jr, pname)
-            row = []
-            for _tname, val in ID_SAMPLES:
-                payload = {'jsonrpc': '2.0', 'id': val, 'result': 1, 'error': None}
-                row.append(_exc_name(lambda: proto._message_id(payload, True)) == 'none')
-            table[pname] = row
-        facts['admit'] = table
-        facts['allow_batches'] = {p: bool(getattr(jr, p).allow_batches)
-                                  for p in PROTOS + ['JSONRPCAutoDetect']}
-
-        # ---- can a bool id select a request (1.0: ids are unconstrained)?
-        def v1_probe(idval):
-            c = jr.JSONRPCConnection(jr.JSONRPCv1)
-            c.send_request(jr.Request('m', []))
-            _m, fut = c.send_request(jr.Request('m', []))       # id 1 (or start+step)
-            raw = json.dumps({'result': 5, 'error': None, 'id': idval}).encode()
-            name = _exc_name(lambda: c.receive_message(raw))
-            return name, fut.done()
-        try:
-            name, done = v1_probe(True)
-        except Exception as e:   # noqa
-            name, done = type(e).__name__, True
-        facts['conn_rejects_bool'] = (name == 'ProtocolError' and not done)
-        try:
-            name, _done = v1_probe([1])
-        except Exception as e:   # noqa
-            name = type(e).__name__
-        facts['unhashable_exc'] = name
-
-        # ---- unsortable response batch
-        c = jr.JSONRPCConnection(jr.JSONRPCv2)
-        try:
-            c.send_batch(jr.Batch([jr.Request('a', []), jr.Request('b', [])]))
-        except Exception:   # noqa
-            pass
-        raw = json.dumps([{'jsonrpc': '2.0', 'id': 0, 'result': 1},
-                          {'jsonrpc': '2.0', 'id': 'x', 'result': 2}]).encode()
-        facts['unsortable_exc'] = _exc_name(lambda: c.receive_message(raw))
+        # first, so that a counter shared between connections still hands out 0 and 1 here
+        facts.update(probe_odd_ids(jr))
+        facts.update(probe_id_counter(jr))
+        facts['fail_draws'] = probe_fail_draws(jr, facts['id_step'])
+        fd = facts['fail_draws']
+        # a failed send uses up all of its ids (as in the tree) or none; anything else cannot be
+        # expressed by the model and shows up as a disagreement
+        facts['fail_draws_single'] = fd['single'][1] != 0
+        facts['fail_draws_batch'] = not (fd['batch_v1'][1] == 0 and fd['batch_unencodable'][1] == 0)
+        facts['process'] = probe_process_table(jr)
+        facts['admit'] = {p: [row[0][0] for row in rows] for p, rows in facts['process'].items()}
+        facts['allow_batches'] = probe_allow_batches(jr)
+        facts['sort_probes'] = probe_sort(jr)
+        facts['mismatch_probes'] = probe_mismatch(jr)
+        facts['notif_batch_quiet'] = probe_notification_only_batch(repo, jr)
     finally:
         asyncio.set_event_loop(None)
         loop.close()
-    facts['sort'] = _sort_key_facts(tree)
     facts['fingerprints'] = common.fingerprints(repo, FUNCS)
     return facts
 
 
+# ------------------------------------------------------------------ rendering
 def _b(x):
     return 'true' if x else 'false'
 
@@ -142,31 +351,76 @@ def _row(r):
     return '[' + ', '.join(_b(x) for x in r) + ']'
 
 
+def _nats(l):
+    return '[' + ', '.join(str(int(x)) for x in l) + ']'
+
+
+def _cell(c):
+    ok, rec = c
+    return f'({_b(ok)}, {ID_LEAN[rec] if rec >= 0 else ".null"})'
+
+
+def _ptable(rows):
+    return '[' + ',\n   '.join('[' + ', '.join(_cell(c) for c in row) + ']' for row in rows) + ']'
+
+
+def _probe(p):
+    if isinstance(p['got'], list) and all(isinstance(x, int) and x >= 0 for x in p['got']):
+        got = f'some {_nats(p["got"])}'
+    else:
+        got = 'none'
+    return f'({_nats(p["ids"])}, {_nats(p["order"])}, {got})'
+
+
 def render(f):
     a = f['admit']
+    pt = f['process']
+    mm = {m['kind']: m for m in f['mismatch_probes']}
     return (
-        '/-! GENERATED by tools/facts/c01.py from /repo on every run - do not edit. -/\n'
+        'import Aiorpcx.C01.Ids\n'
+        '/-! GENERATED by tools/facts/c01.py from /repo on every run - do not edit.\n'
+        '    Every value was obtained by running the public API of the tree. -/\n'
         'namespace Aiorpcx.Facts.C01\n'
+        'open Aiorpcx.C01\n'
         '/-- first id drawn by a fresh connection, and the difference between consecutive ids\n'
         '    (0 when the ids seen were not an arithmetic progression of ints) -/\n'
         f'def idStart : Nat := {f["id_start"]}\n'
         f'def idStep : Nat := {f["id_step"]}\n'
-        '/-- does `_message_id` accept a response id of type\n'
-        '    int, float, str, null, bool, list, dict (in this order) -/\n'
+        '/-- a `send_request` / `send_batch` that raises (unencodable argument, protocol without\n'
+        '    batches) still uses up the ids it drew: the next id on the wire skips them -/\n'
+        f'def failDrawsSingle : Bool := {_b(f["fail_draws_single"])}\n'
+        f'def failDrawsBatch : Bool := {_b(f["fail_draws_batch"])}\n'
+        '/-- is a valid response with an id of type\n'
+        '    int, float, str, null, bool, list, dict (in this order) accepted by `message_to_item` -/\n'
         f'def admitV1 : List Bool := {_row(a["JSONRPCv1"])}\n'
         f'def admitV2 : List Bool := {_row(a["JSONRPCv2"])}\n'
         f'def admitLoose : List Bool := {_row(a["JSONRPCLoose"])}\n'
-        '/-- `allow_batches` of v1, v2, Loose, AutoDetect -/\n'
+        '/-- `message_to_item` on a response with each of those ids (rows) that carries a result,\n'
+        '    an error, both (malformed), or has no id (columns): (returned a Response?, the id\n'
+        '    returned / recoverable from the ProtocolError; null when there is none) -/\n'
+        f'def processV1 : List (List (Bool × Id)) :=\n  {_ptable(pt["JSONRPCv1"])}\n'
+        f'def processV2 : List (List (Bool × Id)) :=\n  {_ptable(pt["JSONRPCv2"])}\n'
+        f'def processLoose : List (List (Bool × Id)) :=\n  {_ptable(pt["JSONRPCLoose"])}\n'
+        '/-- does `send_batch` work on a fresh connection of v1, v2, Loose, AutoDetect -/\n'
         f'def allowBatches : List Bool := {_row([f["allow_batches"][p] for p in PROTOS + ["JSONRPCAutoDetect"]])}\n'
-        '/-- a 1.0 response with `"id": true` while request 1 is outstanding is rejected with\n'
-        '    ProtocolError and leaves the request pending -/\n'
+        '/-- a 1.0 response with a bool id equal (`==`) to an outstanding id is rejected with\n'
+        '    ProtocolError and leaves everything pending -/\n'
         f'def connRejectsBool : Bool := {_b(f["conn_rejects_bool"])}\n'
         '/-- an unhashable response id / an unsortable response batch ends in ProtocolError\n'
-        '    (false: TypeError escapes - F4/F5, owned by C05) -/\n'
+        '    (false: TypeError escapes - the repairs F4/F5 are missing) -/\n'
         f'def lookupGuarded : Bool := {_b(f["unhashable_exc"] == "ProtocolError")}\n'
         f'def sortGuarded : Bool := {_b(f["unsortable_exc"] == "ProtocolError")}\n'
-        '/-- `sorted(zip(ids, results), key=lambda t: t[<index>])` in `_receive_response_batch` -/\n'
-        f'def sortedCalls : Nat := {f["sort"]["sorted_calls"]}\n'
-        f'def sortKeyIndex : Int := {f["sort"]["key_index"]}\n'
-        f'def sortReverse : Bool := {_b(f["sort"]["reverse"])}\n'
+        '/-- batches answered in a permuted member order with results that cannot be compared:\n'
+        '    (ids of the batch in member order as read from the wire, answer order as member\n'
+        '    indices, member indices in the order the future delivered them; none: not delivered) -/\n'
+        'def sortProbes : List (List Nat × List Nat × Option (List Nat)) :=\n  ['
+        + ',\n   '.join(_probe(p) for p in f['sort_probes']) + ']\n'
+        '/-- a batch answer with a duplicated / missing / foreign member id, and a single response\n'
+        '    to a member id: rejected with ProtocolError, the batch untouched -/\n'
+        'def mismatchRejected : List Bool := '
+        + _row([mm[k]['exc'] == 'ProtocolError' and not mm[k]['moved']
+                for k in ('duplicate', 'missing', 'foreign', 'single')]) + '\n'
+        '/-- a notification-only batch sent through a real RPCSession returns quietly with\n'
+        '    `results == ()` (false: F19 unrepaired, `await None` raises TypeError) -/\n'
+        f'def notifBatchQuiet : Bool := {_b(f["notif_batch_quiet"])}\n'
         'end Aiorpcx.Facts.C01\n')
